@@ -36,12 +36,15 @@ import lexer
 import renderlib as R
 
 LEVEL = "proof"
-EXTRA_TARGETS = ["model/TrimTie.vo", "model/TrimPhTie.vo"]
+EXTRA_TARGETS = ["model/TrimTie.vo", "model/TrimPhTie.vo", "model/TrimFlowTie.vo"]
 HEADER = ("From Coq Require Import List ZArith.\nImport ListNotations.\n"
           "From TI Require Import lib.Term model.Trim model.TrimSpec model.TrimTie.\nFrom Coq Require Import Uint63.\nOpen Scope Z_scope.\n")
 
 PH_HEADER = ("From Coq Require Import List ZArith.\nImport ListNotations.\n"
              "From TI Require Import model.Trim model.TrimPlaceholder model.TrimPhTie.\nOpen Scope Z_scope.\n")
+
+FLOW_HEADER = ("From Coq Require Import List ZArith PrimFloat.\nImport ListNotations.\n"
+               "From TI Require Import model.TrimFlowTie.\nOpen Scope Z_scope.\n")
 
 H_CH = ["<", "|", ">"]
 V_CH = ["^", "-", "_"]
@@ -236,6 +239,59 @@ def gen_flow_history(rng):
     return h
 
 
+CELL_SIZES_B = CELL_SIZES + [[6, 13], [11, 23]]
+
+
+def original_columns(style, px_w, cell):
+    """the image's ORIGINAL width in columns (graphics: pixels -> cells floors, at least 1)"""
+    return px_w if style == "block" else max(1, px_w // cell[0])
+
+
+def gen_flow_boundary(rng):
+    """(round 6) Flow widgets (one not upscaling, one upscaling) laid out at widths EXACTLY equal to, one below and
+    one above the image's ORIGINAL number of columns; graphics-based images (80%) whose pixel width / height are NOT
+    multiples of the cell width / height (pixels -> cells floors: the size fitted to the original number of columns is
+    a scaled-DOWN one), several cell sizes, sometimes changed after construction; the point is rows() against render()
+    where the fitted and the original size part."""
+    want_gfx = rng.random() < 0.8
+    while True:
+        c = gen_case(rng)
+        if (c["style"] != "block") == want_gfx:
+            break
+    cell = list(rng.choice(CELL_SIZES_B))
+    if want_gfx:
+        cw, ch = cell
+        c["img"]["size"] = [rng.randint(1, 8) * cw + rng.randint(1, cw - 1), rng.randint(1, 12) * ch + rng.randint(1, ch - 1)]
+    else:
+        c["img"]["size"] = [rng.randint(1, 12), rng.choice([1, 3, 5, 7, 9, 11, 13, 15, 21])]
+    c["upscale"] = False
+    c["spec"] = fmt_spec(c)
+    h = to_history(c)
+    h["cell_size"] = cell
+    w2 = dict(h["widgets"][0]); w2["upscale"] = True; w2["spec"] = fmt_spec(w2)
+    h["widgets"].append(w2)
+    h["cache"] = False
+    steps = []
+
+    def burst(cell_now):
+        o = original_columns(c["style"], c["img"]["size"][0], cell_now)
+        for mc in (o, o - 1, o + 1):
+            if mc >= 1:
+                steps.append(["render", 0, [mc]])
+        steps.append(["render", 1, [rng.choice([mc for mc in (o, o - 1, o + 1) if mc >= 1])]])
+
+    burst(cell)
+    if rng.random() < 0.4:
+        if want_gfx:
+            cell = list(rng.choice(CELL_SIZES_B))
+            steps.append(["env", {"cell_size": cell}])
+        else:
+            steps.append(["env", gen_env(rng)])
+        burst(cell)
+    h["steps"] = steps
+    return h
+
+
 def gen_layout(rng, W, H):
     """A real urwid composition around the widget: 1..3 nested Overlays (explicit left / top / width / height of the
     covering widget, mostly strictly inside so that image is visible on both sides), optionally over a Columns that
@@ -374,6 +430,15 @@ def corpus_histories():
     # graphics flow widget, the terminal's cell size changes after construction
     cs.append(to_history(g, [["render", 0, [7]], ["env", {"cell_size": [12, 16]}], ["render", 0, [7]], ["render", 0, [4]],
                              ["trim", 0, "all"], ["env", {"cell_size": [7, 21]}], ["render", 0, [9]], ["trim", 1, "all"]]))
+    # (round 6) graphics flow widgets at the image's original number of columns, pixel size off the cell grid: 19x100 px,
+    # 10x20-px cells, widths 1 (fitted (1, 2) < original (1, 5)) and 2; 47x130 px at 8x16-px cells, widths 5, 4, 6
+    for style, size, cell, widths in (("kitty", [19, 100], [10, 20], [1, 2]), ("iterm2", [47, 130], [8, 16], [5, 4, 6])):
+        g2 = dict(g); g2["style"] = style; g2["img"] = {"mode": "RGB", "size": size, "seed": 5, "kind": "runs"}
+        h = to_history(g2, [["render", wi, [mc]] for mc in widths for wi in (0, 1)])
+        w2 = dict(h["widgets"][0]); w2.update(upscale=True); w2["spec"] = fmt_spec(w2)
+        h["widgets"].append(w2)
+        h["cell_size"] = cell
+        cs.append(h)
     # --- several requests in flight at once (round 4)
     # the two halves of a canvas beside a covered block, in lock-step / one ahead / one after the other / first one
     # abandoned after its first image row and finished last; three requests; then real urwid compositions
@@ -422,7 +487,8 @@ def describe_history(h, res=None):
     s = (f"{h['style']} img={h['img']['mode']}{h['img']['size']}/{h['img'].get('kind')}#{h['img']['seed']} "
          f"widgets={[(w['spec'], 'upscale' if w['upscale'] else 'no-upscale') for w in h['widgets']]} via={h.get('via')} "
          f"term={h.get('term', '')!r} on_kitty={h.get('on_kitty', False)} term_bg={h.get('term_bg')} "
-         f"disguise={c['disguise']} cache={h.get('cache', False)} steps={h['steps']}")
+         f"disguise={c['disguise']} cache={h.get('cache', False)} cell_size_at_construction={h.get('cell_size', [10, 20])} "
+         f"steps={h['steps']}")
     if res and "canvases" in res:
         s += " -> canvases " + ", ".join(f"{tuple(r['size'])}/image{tuple(r['image_size'])}/{len(r['obs'])} requests"
                                           for r in res["canvases"])
@@ -523,6 +589,18 @@ def pcase_term(h, ph):
             f"p_out := {out} |}}")
 
 
+def fcase_term(h, rec):
+    """One flow render from the image's pixel size and the environment at that render (TrimFlowTie.fcase)."""
+    w = h["widgets"][rec["widget"]]
+    env = rec["env"]
+    return (f"{{| f_text := {R.b(bool(rec['text']))}; f_px := {zp(h['img']['size'])}; f_cell := {zp(env['cell_size'])}; "
+            f"f_ratio := ({float(env['cell_ratio']).hex()})%float; f_up := {R.b(bool(w['upscale']))}; "
+            f"f_maxcol := {core.z(rec['req'][0])}; f_fit := {zp(rec['fit'])}; f_ori := {zp(rec['ori'])}; "
+            f"f_rows_before := {core.z(rec.get('rows_method', -1))}; "
+            f"f_rows_after := {core.z(rec.get('rows_method_after_fresh', -1))}; f_canvas := {zp(rec['size'])}; "
+            f"f_image := {zp(rec['image_size'])}; f_ncontent := {core.z(len(rec['full']))} |}}")
+
+
 def ph_reason(h, ph):
     kind = (h.get("placeholder") or {}).get("kind")
     who = (f"error placeholder {kind!r} installed (accepts a box size: {ph.get('ph_box')}; its own flow rows at that width: "
@@ -599,6 +677,7 @@ def evaluate(hs, tag):
     impl = core.run_impl_parallel("impl_c17.py", hs, chunk=max(30, (len(hs) + core.NCPU - 1) // core.NCPU))
     terms, owner = [], []
     pterms, powner = [], []
+    fterms, fowner = [], []
     out = [[0, [], r, []] for r in impl]
     for i, (h, r) in enumerate(zip(hs, impl)):
         if "error" in r:
@@ -612,6 +691,9 @@ def evaluate(hs, tag):
             powner.append((i, j))
         for k, rec in enumerate(r["canvases"]):
             c = view(h, rec)
+            if len(rec["req"]) == 1 and "fit" in rec:
+                fterms.append(fcase_term(h, rec))
+                fowner.append((i, k))
             try:
                 terms.append(case_term(c, rec))
                 owner.append((i, k))
@@ -627,14 +709,22 @@ def evaluate(hs, tag):
                 out[i][1] += [f"canvas {k} {tuple(rec['size'])}: {x}" for x in why]
     errors = []
     from concurrent.futures import ThreadPoolExecutor
-    with ThreadPoolExecutor(max_workers=2) as ex:
+    with ThreadPoolExecutor(max_workers=3) as ex:
         fut_p = ex.submit(core.coq_shards, tag + "_ph", PH_HEADER, pterms, "pcase", "pbad cases", 2000) if pterms else None
+        fut_f = ex.submit(core.coq_shards, tag + "_fl", FLOW_HEADER, fterms, "fcase", "fbad cases", 2000) if fterms else None
         fut_t = ex.submit(core.coq_shards, tag, HEADER, terms, "tcase", "bad cases", 4) if terms else None
         if fut_t:
             bad, errs = fut_t.result()
             errors += errs
             for idx, code in bad:
                 i, k = owner[idx]
+                out[i][0] |= code
+                out[i][3][k] |= code
+        if fut_f:
+            bad, errs = fut_f.result()
+            errors += errs
+            for idx, code in bad:
+                i, k = fowner[idx]
                 out[i][0] |= code
                 out[i][3][k] |= code
         if fut_p:
@@ -877,8 +967,10 @@ def run(ctx):
         for h in hists[::2] + hists_large[::2]:  # simultaneous requests inside render/request histories (steps are only added)
             with_inter_steps(rng, h)
         fails = [gen_fail_history(rng) for _ in range(n_fail)]
+        # (round 6) flow widths at / around the image's original number of columns, pixel sizes off the cell grid
+        bounds = [gen_flow_boundary(rng) for _ in range(12 if ctx.quick else 600)]
         hs = ([to_history(c) for c in corpus()] + corpus_histories() + plain + plain_large + hists + hists_large + flows
-              + inters + fails)
+              + inters + fails + bounds)
     res, errors = evaluate(hs, "c17")
     failures, mismatches = [], []
     hist = {"style": {}, "sizing": {}, "align": {}, "alpha": {}, "via": {}, "upscale": {}, "canvas_cells": {},
@@ -887,7 +979,11 @@ def run(ctx):
             "histories": {"total": len(hs), "renders": {}, "widgets_sharing_image": 0, "canvas_cache_on": 0, "cache_hits": 0},
             "requests_after_a_later_render": 0, "requests_after_image_size_changed": 0,
             "environment": {"histories_with_changes": 0, "changes": {}, "flow_renders": 0, "flow_renders_after_a_change": 0,
-                            "flow_renders_upscale": 0, "flow_renders_original_size_used": 0, "cell_ratio_at_flow_render": {}},
+                            "flow_renders_upscale": 0, "flow_renders_original_size_used": 0, "cell_ratio_at_flow_render": {},
+                            "flow_width_vs_original_columns": {"below": 0, "one_below": 0, "equal": 0, "one_above": 0, "above": 0},
+                            "flow_renders_graphics": 0, "flow_renders_graphics_pixel_size_off_the_cell_grid": 0,
+                            "flow_renders_fitted_lower_than_original_at_its_own_width": 0,
+                            "cell_size_at_flow_render": {}},
             "simultaneous_requests": {"groups": 0, "requests": 0, "next_calls": 0, "requests_per_group": {},
                                       "made_by": {"driver schedule": 0, "urwid composition": 0},
                                       "groups_truly_interleaved": 0, "groups_with_different_horizontal_trims_in_flight": 0,
@@ -944,6 +1040,21 @@ def run(ctx):
                 E["cell_ratio_at_flow_render"][rk] = E["cell_ratio_at_flow_render"].get(rk, 0) + 1
                 if any(si < rec["built_at"] for si, _e in envs):
                     distinct.add((ci, "flow-after-env-change"))
+                d = rec["req"][0] - rec["ori"][0]
+                E["flow_width_vs_original_columns"]["below" if d < -1 else "one_below" if d == -1 else "equal" if d == 0
+                                                   else "one_above" if d == 1 else "above"] += 1
+                cs = rec["env"]["cell_size"]
+                if not rec["text"]:
+                    E["flow_renders_graphics"] += 1
+                    E["flow_renders_graphics_pixel_size_off_the_cell_grid"] += bool(h["img"]["size"][0] % cs[0]
+                                                                                    and h["img"]["size"][1] % cs[1])
+                    ck2 = f"{cs[0]}x{cs[1]}"
+                    E["cell_size_at_flow_render"][ck2] = E["cell_size_at_flow_render"].get(ck2, 0) + 1
+                if rec["fit"][0] == rec["ori"][0] and rec["fit"][1] < rec["ori"][1]:
+                    # the two sizes part at the image's own width: rows() and render() must both take the fitted one
+                    E["flow_renders_fitted_lower_than_original_at_its_own_width"] += 1
+                    if not c["upscale"]:
+                        distinct.add((ci, "flow-fitted-lower-than-original"))
             ak = f"{'d' if c['ha'] is None else H_CH[c['ha']]}{'d' if c['va'] is None else V_CH[c['va']]}"
             hist["align"][ak] = hist["align"].get(ak, 0) + 1
             hist["alpha"][c.get("alpha", "")] = hist["alpha"].get(c.get("alpha", ""), 0) + 1
@@ -1041,7 +1152,9 @@ def run(ctx):
             mismatches.append({"case": describe_history(h, r), "canvas": k, "code": code,
                                "explain": explain(view(h, rec), rec)[:600] if len(mismatches) < 3 and rec else ""})
     return {
-        "corr_name": "Trim.content_text / content_gfx / rows (model, run on the data captured when each canvas was built) == real "
+        "corr_name": "TrimFlow.announced_rows / rendered_canvas over Sizing.valid_size (from pixel size, cell size, cell ratio, maxcol) "
+                     "== real UrwidImage.rows / render / content of flow widgets; "
+                     "Trim.content_text / content_gfx / rows (model, run on the data captured when each canvas was built) == real "
                      "UrwidImage.render(size).content(...) over render/request histories, UrwidImage.rows; TrimIter.run == several live "
                      "content() generators of one canvas under a schedule (driver-made and urwid-made); TrimPlaceholder.render_outcome == "
                      "UrwidImage.render when rendering fails",
@@ -1083,7 +1196,16 @@ def run(ctx):
                 "yields, width of plain-text rows) or the exception, what the placeholder itself does with that box size and with "
                 "the flow size (probed) — judged in Coq (TrimPhTie.pcheck) against TrimPlaceholder.render_outcome and against the "
                 "rows-announced = rows-rendered clause.  Non-trivial: a failing flow render whose placeholder's own flow height "
-                "differs from the announced rows.",
+                "differs from the announced rows.  ROUND 6 — FLOW WIDTHS AT THE IMAGE'S ORIGINAL COLUMNS: histories of two flow "
+                "widgets (not upscaling / upscaling) of one image laid out at widths exactly equal to, one below and one above the "
+                "image's ORIGINAL number of columns; graphics-based images 80% (Kitty / ITerm2) whose pixel width and height are "
+                "NOT multiples of the cell width / height (k*cw + 1..cw-1 by m*ch + 1..ch-1 px, k <= 8, m <= 12), cell sizes 10x20, "
+                "8x16, 10x10, 7x21, 12x16, 9x18, 6x13, 11x23, in 40% changed after construction with the widths recomputed; "
+                "text images of odd pixel heights.  EVERY flow render of the run (these and all earlier families) is judged in Coq "
+                "(TrimFlowTie.fcheck) from the image's pixel size and the cell size / cell ratio at that render: the sizing model on "
+                "primitive binary64 floats must give the observed _valid_size(maxcol) / _valid_size(ORIGINAL), rows() before / "
+                "after, canvas and image size; rows() = canvas.rows() = rows content() yields and canvas.cols() = maxcol.  "
+                "Non-trivial there: a non-upscaling flow render whose fitted size is lower than the original size at the same width.",
         "samples": [describe_history(h, e[2]) for h, e in list(zip(hs, res))[:1] + list(zip(hs, res))[21:24] + list(zip(hs, res))[-2:]],
         "histogram": hist,
         "mismatches": mismatches,
